@@ -1,0 +1,45 @@
+//go:build verif
+
+// Contracts for package headsync, checked by /verif (govc). Comment-only.
+package headsync
+
+// ---------------------------------------------------------------------------------------------
+// C15: the advertised head index.  An entry with a deletion status is taken out of the index and
+// never (re)added; a live update is added only when the deletion state does not know the id.
+//@ ghost idxSet Bool stable
+//@ ghost idxSetId Str stable
+//@ ghost idxRemoved Bool stable
+//@ ghost idxRemovedId Str stable
+//@ func iface ldiff.Diff.Set
+//@   modifies nothing
+//@   sets idxSet = true
+//@   sets idxSetId = ite(len(arg1) > 0, arg1[0].Id, "")
+//@ func iface ldiff.Diff.RemoveId
+//@   modifies nothing
+//@   sets idxRemoved = true
+//@   sets idxRemovedId = arg1
+//@ func iface ldiff.Diff.Hash
+//@   modifies nothing
+//@ func iface deletionstate.ObjectDeletionState.Exists
+//@   pure
+//@ package github.com/anyproto/any-sync/app/ldiff
+//@ func NewHasher
+//@   modifies nothing
+//@   ensures result != nil
+//@ func ReleaseHasher
+//@   modifies nothing
+//@ func (*Hasher).HashId
+//@   modifies nothing
+//@ package github.com/anyproto/any-sync/commonspace/headsync
+//@ func concatStrings
+//@   modifies nothing
+//@ func iface spacestorage.SpaceStorage.StateStorage
+//@   pure
+//@ func iface statestorage.StateStorage.SetHash
+//@   modifies nothing
+//@ func (*DiffManager).UpdateHeads
+//@   requires dm != nil && dm.diff != nil && dm.deletionState != nil && dm.storage != nil
+//@   assumes dm.storage.StateStorage() != nil
+//@   requires !idxSet && !idxRemoved
+//@   ensures [deleted_leaves_index]  update.DeletedStatus != 0 ==> idxRemoved && idxRemovedId == update.Id && !idxSet
+//@   ensures [tombstoned_not_readded] idxSet ==> update.DeletedStatus == 0 && !dm.deletionState.Exists(update.Id) && idxSetId == update.Id
